@@ -173,6 +173,14 @@ def gen_plan(rng, lib_ids, families, tier):
         if picks and r < 0.15:
             picks.append(rng.choice(picks))  # the same description twice
             continue
+        if picks and r < 0.35:
+            # the near twin of the first session (or the original of a twin), if the library has one
+            first = picks[0]
+            mates = [i for i in sorted(lib_ids) if i.startswith(first.split("~t")[0] + "~t") or i == first.split("~t")[0]]
+            mates = [i for i in mates if i != first]
+            if mates:
+                picks.append(rng.choice(mates))
+                continue
         if picks and r < 0.6:
             # a relative of the first session: same kind of network, different details - the
             # pairs most likely to collide on shared state
@@ -666,7 +674,7 @@ def main(argv):
     refs = build_references(lib, scratch)
     unusable, hs_viol = ref_problems(lib, refs)
     ref_s = timer.s()
-    if not hs_viol and (len([u for u in unusable if not u.startswith("rnd-")]) > 6 or len(unusable) > len(lib) * 0.5):
+    if not hs_viol and (len([u for u in unusable if not u.startswith("rnd-") and "~t" not in u]) > 6 or len(unusable) > len(lib) * 0.5):
         raise K.HarnessError(f"too many unusable descriptions: {unusable}")
     usable = [d for d in lib if d["id"] not in unusable and not d.get("twin_of")
               and not any(h["desc"]["id"] == d["id"] for h in hs_viol)]
@@ -762,6 +770,7 @@ def main(argv):
         "session_steps": tot["steps"],
         "library_descriptions": len([d for d in lib if not d.get("twin_of")]),
         "library_twins_without_prior_renders": len([d for d in lib if d.get("twin_of")]),
+        "library_near_twins": len([d for d in lib if d.get("near_twin_of") and not d.get("twin_of")]),
         "library_usable": len(usable),
         "library_unusable": unusable,
         "families": families,
